@@ -235,6 +235,8 @@ def summarise(recs, fails):
             obs = r["proto"] if r["proto"] in ("h2", "stalled", "other") else ("h1" if exp == "h1" or "decision" not in cl else "not-h2")
             if exp == "h2" and r["proto"] != "h2":
                 obs = "not-h2" if r["proto"] in ("h1", "none") else r["proto"]
+            if r["proto"] == "stalled-spinning":
+                obs = "never-answered"
             b = ("conn", exp, obs, "+".join(sorted(cl)))
         buckets.setdefault(b, []).append(i)
     out = []
@@ -273,6 +275,12 @@ def summarise(recs, fails):
             if exp == "h2" and obs != "h2" and first == "first<24=all":
                 name = "h2-preface-split"
             key = f"{name}-served-{obs}[{cl}]@m={ms};{first}"
+            if obs == "never-answered":
+                # the connection neither answered nor closed (the code under test busy-loops): the chunkings are not part
+                # of the key (after watchdog stalls the rest of a class is skipped, so their range is not stable)
+                if all(r["eof"] and r["len"] == lcp(r["head"]) < 24 for r in rs):
+                    name = "preface-prefix-eof"
+                key = f"{name}-never-answered[{cl}]@m={ms}"
             kinds = sorted({(r["kind"], "eof%d" % r["len"] if r["eof"] else "cont") for r in rs})
             entries = sorted({r["entry"] for r in rs})
             e0 = rs[0]
@@ -409,6 +417,8 @@ def run(pid, tier, seed, t0):
         "exhaustive_over": (f"{nclasses} stream classes (m 0..24, continuing + eof len m..32), every cut set with <= K cuts of the "
                             f"window (K per family: see spec/MC_Sniff.tla Families, tier {tier}) + the all-ones chunking; "
                             "Pending placements 0..6 on the low-K families"),
+        "stalled_spinning_vectors": summary.get("stalled_spinning", 0), "skipped_after_stall": summary.get("skipped_after_stall", 0),
+        "watchdog_abandoned_threads": summary.get("watchdog_abandoned_threads", 0),
         "conn_vectors": summary["vectors"], "rewind_vectors": summary["rewind_vectors"], "families": summary["families"],
         "tlc_records": len(recs), "monitor_selftest_records": ncanary, "group_records": len(groups), "single_vector_records": nraw,
         "tlc_coverage": {a: {"distinct": d, "taken": t} for a, (d, t) in sorted(cov.items())},
@@ -426,7 +436,8 @@ def run(pid, tier, seed, t0):
         "hyper 1.6 / h2 0.4.7 are the single-protocol reference and the protocol handlers: what the handler saw is observed through the parsed request (method, uri, version, headers, body) and the response bytes, not through raw reads, except in the direct Rewind runs",
         "HTTP/2 answers are compared in canonical form (stream-0 frames as a multiset, per-stream frames in order)",
         "fragmentation beyond the first 32 bytes is not varied (the rest of a continuing stream arrives as one chunk)",
-        "the scripted IO never returns an error and never offers a zero-capacity read",
+        "the scripted IO never returns an error (except to stop a detected busy loop) and never offers a zero-capacity read",
+        "a run that busy-loops is recorded as stalled-spinning (in-band brake after 1000 reads past the end of the stream / 10^6 IO calls; real-time watchdog of 5 s per vector as backstop, after which the rest of that class may be skipped and is reported as skipped_after_stall)",
     ]
     vlib.write_evidence(pid, tier, seed, "model_checking", coverage, assumptions, time.time() - t0, len(viols))
     vlib.log(f"[C08] model {mc.distinct} states; {summary['vectors']} conn + {summary['rewind_vectors']} rewind vectors on the real crate "
